@@ -9,7 +9,7 @@ O=$(mktemp -d /tmp/mutout.XXXXXX)
 cp /verif/known_findings.txt "$O/"
 git -C /repo worktree add -q --detach "$W" HEAD || exit 9
 if ! git -C "$W" apply "$P"; then echo "PATCH DOES NOT APPLY"; git -C /repo worktree remove --force "$W"; rm -rf "$O"; exit 9; fi
-OUT=$(VERIF_REPO="$W" VERIF_OUT_DIR="$O" /verif/bin/check "$ID" "$TIER" 2>&1); RC=$?
+OUT=$(VERIF_OP_TIMEOUT_S=${VERIF_OP_TIMEOUT_S:-4} timeout ${MUT_TIMEOUT:-900} env VERIF_REPO="$W" VERIF_OUT_DIR="$O" /verif/bin/check "$ID" "$TIER" 2>&1); RC=$?
 echo "$OUT" | grep -E "^violation|verdict=|BUILD FAILED|INCONCLUSIVE" | sort | uniq -c | sort -rn | head -${MUT_LINES:-6}
 echo "exit=$RC"
 git -C /repo worktree remove --force "$W"
